@@ -915,6 +915,19 @@ def copy_aliasing(ctx, prop):
                     src = node.value.args[0]
                     if isinstance(src, ast.Attribute) and src.attr == t.attr and term(src.value) == 'self' and term(t.value) != 'self':
                         fresh.add(t.attr)
+    if cp is not None:
+        # the same on the path table (sees through a loop over a tuple of field names with setattr / getattr)
+        per_path = []
+        for p_ in ctx.paths(c, cp, Options()):
+            got = set()
+            for e in p_.effects:
+                if e.kind == 'write' and e.target and not e.target.startswith('self.') and '.' in e.target:
+                    attr = e.target.rsplit('.', 1)[1]
+                    if re.match(r'^(dict|list|set|copy|deepcopy|copy\.copy|copy\.deepcopy)\(self\.%s(\$|@|\)|,)' % re.escape(attr), e.value or ''):
+                        got.add(attr)
+            per_path.append(got)
+        if per_path:
+            fresh |= set.intersection(*per_path)
     for m in mutable:
         ok = m in fresh
         ctx.ob(rule, ok)
